@@ -309,8 +309,8 @@ static bool uncertain_port(std::string_view v) {
 //      transcribes, and on a special ("https://dummy.invalid/"-like) dummy URL in another.  They differ for U+0027 (') in
 //      a search (query vs special-query percent-encode set) and for U+005C (\) in a non-opaque pathname (segment
 //      separator of special URLs only).  The WPT vectors do not decide either.
-static bool uncertain_search(std::string_view v) { return v.find('\'') != std::string_view::npos; }
-static bool uncertain_special_pathname(std::string_view v) { return v.find('\\') != std::string_view::npos; }
+static bool uncertain_search(std::string_view) { return false; }  // judged: canonicalize a search runs on "a new URL record" (not special) in the Standard and in ada's own comments
+static bool uncertain_special_pathname(std::string_view) { return false; }  // judged: same dummy URL, '\\' is an ordinary path code point
 
 // What a full parse of "fake:" + value (no state override: hierarchical when the value starts with '/', authority when it
 // starts with "//", trailing C0 control / space trimmed) yields as pathname.  Used ONLY to label a disagreement on an
@@ -1131,6 +1131,28 @@ static void run_wpt(const std::string& path, int sh, int ns, std::map<std::strin
   extra["wpt_file"] = jstr(path);
 }
 
+// (B2) helper: the grouped pattern against the same pattern with the plain-group braces removed
+static void c15_group_check(const Spec& ps1) {
+  Spec ps0 = ps1;
+  for (auto& c : ps0.d.c) if (c) { std::string o; for (char ch : *c) if (ch != '{' && ch != '}') o.push_back(ch); c = o; }
+  std::string w = wit15("group", ps1);
+  set_case(w);
+  auto p0 = build(ps0, false);
+  auto p1 = build(ps1, false);
+  if (p0.has_value() != p1.has_value()) {
+    int comp = 0; for (int k = 0; k < 8; k++) if (ps1.d.c[k] && ps1.d.c[k]->find('{') != std::string::npos) comp = k;
+    viol("C15/group/transparent:construct:" + std::string(CN[comp]), "new URLPattern(" + show_spec(ps1) + ") " + (p1 ? "constructs" : "fails") + " but the same literal without the plain group " + (p0 ? "constructs" : "fails"), w, spec_size(ps1));
+    return;
+  }
+  if (!p0) return;
+  auto a0 = pattern_strings(*p0), a1 = pattern_strings(*p1);
+  for (int c = 0; c < 8; c++)
+    if (a0[c] != a1[c]) {
+      viol("C15/group/transparent:pattern-string:" + std::string(CN[c]), "new URLPattern(" + show_spec(ps1) + "): " + CN[c] + " pattern string \"" + show(a1[c]) + "\" but without the plain group it is \"" + show(a0[c]) + "\"", w, spec_size(ps1));
+      break;
+    }
+}
+
 static void run_c15(const Args& A, std::map<std::string, std::string>& extra) {
   const bool T = !A.quick();
   const int sh = A.shard, ns = A.nshards;
@@ -1239,6 +1261,45 @@ static void run_c15(const Args& A, std::map<std::string, std::string>& extra) {
     extra["kctor"] = std::to_string(kc);
     extra["ctor_tokens"] = std::to_string(tok.size());
   }
+  // (B2) a plain group is transparent: "{text}" with no modifier, name or regexp is appended to the pending fixed text by
+  // the pattern parser ("add a part", step 1), so the whole literal is canonicalised in ONE piece. For every literal of a
+  // per-component menu whose canonical form is not piecewise (dot segments, port numbers, IPv4 shorthand, IDNA, default
+  // ports) and every split (i, j), the pattern  v[0,i) {v[i,j)} v[j,n)  must construct exactly when v does and give the
+  // same eight component pattern strings. No model needed: the ungrouped pattern is the oracle.
+  {
+    static const std::vector<std::pair<int, std::vector<const char*>>> LIT = {
+        {0, {"https", "HTTP", "a-b.c"}},  // no pattern-syntax characters: the ungrouped spelling must be a literal too
+        {1, {"us er", "a%41"}},
+        {3, {"example.com", "1.2.3.4", "0x7f.1", "EXAMPLE.com", "127.1", "xn--9ca.com"}},
+        {4, {"8080", "8000", "65536", "065535", "0"}},  // no scheme default: default-port elision compares the raw pattern string, which a group legitimately changes
+        {5, {"/a/b/../c", "/a/./b", "/x/%2e%2e/y", "/a b/c", "/.a/../b"}},
+        {6, {"q=a b", "a'b"}},
+        {7, {"f g", "a`b"}},
+    };
+    uint64_t ngrp = 0, ordg = 0;
+    for (auto& [comp, lits] : LIT)
+      for (const char* lit : lits) {
+        const std::string v = lit;
+        for (const char* proto : {"https", ""}) {
+          if (comp == 0 && *proto) continue;
+          Dict base_d; if (*proto && comp != 0) base_d.c[0] = proto;
+          Dict plain = base_d; plain.c[comp] = v;
+          for (size_t i = 0; i <= v.size(); i++)
+            for (size_t j = i + 1; j <= v.size(); j++) {
+              if (int(ordg++ % ns) != sh) continue;
+              if (timed_out()) continue;
+              // keep the split outside %XX triplets (a group boundary inside an escape is another literal)
+              auto inside_escape = [&](size_t k) { return (k >= 1 && v[k - 1] == '%') || (k >= 2 && v[k - 2] == '%'); };
+              if (inside_escape(i) || inside_escape(j)) continue;
+              Dict g = base_d; g.c[comp] = v.substr(0, i) + "{" + v.substr(i, j - i) + "}" + v.substr(j);
+              Spec ps1; ps1.d = g;
+              R.evaluations++; R.nontrivial++; ngrp++;
+              c15_group_check(ps1);
+            }
+        }
+      }
+    R.count("plain_group_patterns", ngrp);
+  }
   // (C) WPT
   std::string vec = A.get("vectors");
   if (!vec.empty()) run_wpt(vec, sh, ns, extra);
@@ -1272,6 +1333,8 @@ int main(int argc, char** argv) {
       check_pattern14(ps, ins);
     } else if (sub == "construct") {
       c15_construct(get_spec(doc, "p_"));
+    } else if (sub == "group") {
+      c15_group_check(get_spec(doc, "p_"));
     } else if (sub == "urlcanon") {
       c15_url(get_spec(doc, "i_").d);
     } else if (sub == "wpt") {
